@@ -439,7 +439,7 @@ pub fn check(case: &Case, info: &mut CaseInfo) -> Result<(), Fail> {
 pub fn run(ctx: &Ctx, rep: &mut Report) {
     let n = match ctx.tier {
         Tier::Quick => 480,
-        Tier::Thorough => 8_000,
+        Tier::Thorough => 4_000,
     };
     run_prop(ctx, rep, "isolation", case_strategy(), n, 40, check);
 }
